@@ -367,7 +367,7 @@ impl<'a, R: Clone> AsyncGlobalCache<'a, R> {
                 self.stats.record_hit();
 
                 // Update LRU order on cache hit (after releasing DashMap lock)
-                if self.limit.is_some()
+                if (self.limit.is_some() || self.max_memory.is_some())
                     && (self.policy == EvictionPolicy::LRU
                         || self.policy == EvictionPolicy::ARC
                         || self.policy == EvictionPolicy::TLRU)
